@@ -861,15 +861,22 @@ def r04_19(ctx):
      ctx.bad(construct, f"the expanding arm runs under {sorted(gs)}: a variable that is set to the empty string is kept as the literal `${{NAME}}`, parser 1 expands it to \"\"", f.loc(adds[0])))
     g = repo.func("esp_kconfiglib.kconfig_grammar:KconfigHelpBlock.parseImpl")
     ctx.analysed(g.qual)
-    cmps = [n for n in ast.walk(g.node) if isinstance(n, ast.Compare) and len(n.ops) == 1 and any(
-        isinstance(c, ast.Call) and ast.unparse(c.func).endswith("leading_whitespace_len") for c in [n.left] + n.comparators)]
+    from .common import expand_locals
+
+    def _is_indent(e):
+        """an indentation of a line: the call itself or a local assigned from it; `block_indent` (the first help line) and the
+        keyword's indent are the references it is compared with, not indentations under test"""
+        if isinstance(e, ast.Name) and e.id in ("block_indent", "help_keyword_indent"):
+            return False
+        return "leading_whitespace_len(" in expand_locals(g.node, e, depth=2)
+    cmps = [n for n in ast.walk(g.node) if isinstance(n, ast.Compare) and len(n.ops) == 1 and (_is_indent(n.left) != _is_indent(n.comparators[0]))]
     if len(cmps) < 2:
         raise AnchorError("KconfigHelpBlock.parseImpl: indentation comparisons not found")
     for i, c in enumerate(cmps):
         construct = f"KconfigHelpBlock.parseImpl/indentation test #{i + 1} compares with the first help line"
-        other = c.comparators[0] if isinstance(c.left, ast.Call) else c.left
+        other = c.comparators[0] if _is_indent(c.left) else c.left
         op = c.ops[0]
-        mirrored = not isinstance(c.left, ast.Call)
+        mirrored = not _is_indent(c.left)
         ok = ast.unparse(other) == "block_indent" and isinstance(op, (ast.LtE if mirrored else ast.GtE, ast.Gt if mirrored else ast.Lt))
         (ctx.ok(construct, g.loc(c)) if ok else
          ctx.bad(construct, f"`{ast.unparse(c)}`: a line indented less than the first help line still counts as help text under parser 2 - the properties that follow "
